@@ -159,7 +159,7 @@ def absent_guard(body, bb):
                 return True
         if k.kind == 'discr' and (k.variants == {'None'} or k.variants == {'Vacant'}):
             if any(y.kind == 'call' and y.name.rsplit('::', 1)[-1] in ('get', 'get_mut', 'entry') for y in
-                   k.expr.walk()):
+                   k.expr.walk()) or k.variants == {'Vacant'}:
                 return True
     return False
 
@@ -172,10 +172,12 @@ def r3(ctx):
         b = ctx.anchor(R, S.STORE + '::' + name)
         if b is None:
             continue
-        ins = b.find_calls('std::collections::HashMap::insert')
+        ins = b.find_calls('std::collections::HashMap::insert', 'std::collections::hash_map::VacantEntry::insert',
+                           'std::collections::hash_map::Entry::or_insert',
+                           'std::collections::hash_map::Entry::or_insert_with')
         for c in ins:
             n += 1
-            ctx.check(absent_guard(b, c.bb), R, b, '%s:insert-guarded-by-absence' % name,
+            ctx.check(absent_guard(b, c.bb) or c.name.startswith('or_insert'), R, b, '%s:insert-guarded-by-absence' % name,
                       'insert only when the id is absent',
                       'HashMap::insert is reachable without a test that the id is absent: an existing track can be '
                       'silently replaced', c.ln)
@@ -189,8 +191,14 @@ def r3(ctx):
                       'add_track no longer returns DuplicateTrackId for an existing id')
             # key of insert = id of the inserted track = id used for the shard
             for c in ins:
-                k = eb.operand(c.args[1])
-                v = eb.operand(c.args[2])
+                if 'VacantEntry' in c.callee or 'Entry::' in c.callee:
+                    ent = eb.arg(c, 0)
+                    ec = ent.calls('entry')
+                    k = ec[0].args[1] if ec else ent
+                    v = eb.arg(c, 1)
+                else:
+                    k = eb.operand(c.args[1])
+                    v = eb.operand(c.args[2])
                 same = k.has_place(root=('param', 2), field='track_id') and v.strip().kind == 'place' and \
                     v.strip().root == ('param', 2)
                 ctx.check(same, R, b, 'add_track:key-is-track-id', 'insert(track.track_id, track)',
@@ -208,26 +216,32 @@ def r4(ctx):
     b = ctx.anchor(R, S.STORE + '::fetch_tracks')
     if b is None:
         return
+    from lib import deep_calls, deep_arg, closure_of_adaptor
     eb = ExprBuilder(b)
-    rem = b.find_calls('std::collections::HashMap::remove')
+    rem = deep_calls(ctx.F, b, 'std::collections::HashMap::remove')
     ctx.check(len(rem) >= 1, R, b, 'removes', '%d remove site(s)' % len(rem),
               'fetch_tracks does not remove the fetched tracks from the shard (a lookup/clone leaves them stored)')
-    for c in rem:
-        recv = eb.operand(c.args[0])
-        key = eb.operand(c.args[1]).strip()
+    for owner, c in rem:
+        ebo = ExprBuilder(owner)
+        recv = ebo.arg(c, 0)
+        key = ebo.arg(c, 1).strip()
         gs = [y for y in recv.walk() if y.kind == 'call' and y.name.endswith('get_store')]
         ok = bool(gs) and repr(gs[0].args[1].strip()) == repr(key)
         ctx.check(ok, R, b, 'remove:same-id-selects-shard', 'get_store(%r).remove(%r)' % (gs[0].args[1] if gs else None, key),
                   'remove(%r) operates on %r: shard and key are not derived from the same id' % (key, recv), c.ln)
-        # removed value is pushed to the result
-        pushes = b.find_calls('std::vec::Vec::push')
+        # removed value reaches the result: pushed to the returned vector, or returned by a filter_map/flat_map closure
         ok = False
-        for p in pushes:
-            v = eb.operand(p.args[1])
-            if any(y.kind == 'call' and y.extra is c for y in v.walk()):
-                r0 = eb.operand(p.args[0])
-                ok = True
-        ctx.check(ok, R, b, 'removed-track-returned', 'removed track is pushed to the result',
+        if owner is b:
+            for p in b.find_calls('std::vec::Vec::push'):
+                v = eb.operand(p.args[1])
+                if any(y.kind == 'call' and y.extra is c for y in v.walk()):
+                    ok = True
+        else:
+            ret = ebo.place(0, ())
+            pb, ac = closure_of_adaptor(ctx.F, b, owner)
+            ok = any(y.kind == 'call' and y.extra is c for y in ret.walk()) and ac is not None and ac.name in (
+                'filter_map', 'flat_map', 'map') and eb.place(0, ()).has_call('collect')
+        ctx.check(ok, R, b, 'removed-track-returned', 'removed track reaches the returned vector',
                   'a removed track is not added to the returned vector', c.ln)
     dd = destroyed(b, r'^(std::option::Option<)?track::Track<')
     ctx.check(not dd, R, b, 'no-track-destroyed', '', 'a removed track can be destroyed: %s' % dd)
@@ -336,9 +350,15 @@ def r8(ctx):
                   '%s does not iterate all shards' % name)
         if name == 'shard_stats':
             # each shard contributes len() exactly once per iteration
-            lens = b.find_calls('std::collections::HashMap::len')
+            from lib import deep_calls
+            lens = deep_calls(F, b, 'std::collections::HashMap::len')
             pushes = b.find_calls('std::vec::Vec::push')
-            ok = len(lens) == 1 and len(pushes) == 1 and eb.operand(pushes[0].args[1]).has_call('len')
+            if lens and lens[0][0] is b:
+                ok = len(lens) == 1 and len(pushes) == 1 and eb.operand(pushes[0].args[1]).has_call('len')
+            else:
+                # iterator form: stores.iter().map(|s| s.lock().len()).collect()
+                ok = len(lens) == 1 and ExprBuilder(lens[0][0]).place(0, ()).has_call('len') and \
+                    eb.place(0, ()).has_call('collect') and eb.place(0, ()).has_call('map')
             ctx.check(ok, R, b, 'shard_stats:len-per-shard', '', 'shard_stats does not report len() of every shard')
         else:
             ctx.check(bool(b.find_calls('std::collections::HashMap::clear')), R, b, 'clear:clears', '',
